@@ -59,6 +59,8 @@ if mode == 'fault':
     except Exception:
         pass
     import store
+    if payload:
+        dump_raw('post_raw.json')
     raw = store.raw_state(d, 'sha256')
     out['raw_after_fault'] = {'problems': raw['problems'], 'stored': {k: v.hex() for k, v in raw['stored'].items()}, 'locks': raw['locks'],
                               'has_repack_pack': -1 in raw['packs']}
@@ -82,7 +84,7 @@ try:
     c.close()
 except Exception as e:
     out['close_exc'] = str(e)
-if payload:
+if payload and mode != 'fault':
     dump_raw('post_raw.json')
 with open(os.path.join(snap, 'out.json'), 'w') as f:
     json.dump(out, f)
